@@ -61,6 +61,41 @@ def one_case(rep, cs, seed, i):
     leaves = [p for p in tensor_leaves([sc]) if p.learnable]
     if not leaves:
         return
+    # tiny but non-zero values (2^-70 of an O(1) value): far below machine epsilon, yet the derivative is O(1).
+    # Either an embedding entry that the first sample actually reads, or a whole row of a directly parameterised sum weight.
+    tiny = None
+    if rng.random() < 0.35:
+        from cirkit.symbolic import layers as L_
+        from cirkit.symbolic import parameters as P
+        from cirkit.symbolic.initializers import ConstantTensorInitializer
+        direct = lambda par: len(par.nodes) == 1 and isinstance(par.nodes[0], P.TensorParameter) and not isinstance(par.nodes[0], P.ConstantParameter) \
+            and par.nodes[0].learnable and isinstance(par.nodes[0].initializer, ConstantTensorInitializer) \
+            and isinstance(par.nodes[0].initializer.value, np.ndarray) and not np.iscomplexobj(par.nodes[0].initializer.value)
+        embs = [l for l in sc.layers if isinstance(l, L_.EmbeddingLayer) and direct(l.weight)]
+        sums = [l for l in sc.layers if isinstance(l, L_.SumLayer) and direct(l.weight)]
+        pick = rng.choice((["emb"] if embs else []) + (["row"] if sums else [])) if (embs or sums) else None
+        if pick == "emb":
+            l = rng.choice(embs)
+            pt_ = l.weight.nodes[0]
+            v_ = np.array(pt_.initializer.value, dtype=np.float64)
+            var = sorted(l.scope._set)[0]
+            idx_ = (rng.randrange(v_.shape[0]), int(ys[0][var]))
+            if v_[idx_] != 0:
+                v_[idx_] *= 2.0 ** -70
+                pt_.initializer = ConstantTensorInitializer(v_)
+                tiny = (pt_, idx_)
+        elif pick == "row":
+            l = rng.choice(sums)
+            pt_ = l.weight.nodes[0]
+            v_ = np.array(pt_.initializer.value, dtype=np.float64)
+            r_ = rng.randrange(v_.shape[0])
+            if np.all(v_[r_] != 0):
+                v_[r_] *= 2.0 ** -70
+                pt_.initializer = ConstantTensorInitializer(v_)
+                tiny = (pt_, (r_, rng.randrange(v_.shape[1])))
+        if tiny is not None:
+            desc["tiny"] = [pick, list(tiny[1])]
+            rep.count("tiny:" + pick)
     w = evalc.width_of(sc)
     x = evalc.to_batch(ys, w)
     cont = [v for v in scope if g.doms[v][0] != "disc"]
@@ -78,6 +113,8 @@ def one_case(rep, cs, seed, i):
         st = ctxr._compiler.state
         p = rng.choice(leaves)
         idx = tuple(rng.randrange(d) for d in p.shape)
+        if tiny is not None:
+            p, idx = tiny
         t, k = st.retrieve_compiled_parameter(p)
         with torch.no_grad():
             t._ptensor[(k, *idx)] += H
